@@ -88,9 +88,11 @@ def u64_universes():
     out.append(U("g2-two-level-big", [key(3)],
                  n1 + [key(1, 0, 0, 0, 0, 0, 0, 7)] + n2 + [key(2, 0, 0, 0, 0, 0, 0, 4), key(4), key(1, 0, 0, 0, 0, 0, 1, 1)],
                  probes=[key(1, 0, 0, 9), key(5)], variants=(0, 6), tiers=("thorough",)))
-    out.append(U("g1-i16-i48-big", g1(range(1, 13)), g1([13, 14, 15, 16, 17, 18, 19, 20]), probes=g1([0, 200]), variants=(),
+    # (sizes chosen so that the slowest build - assertions on, fault mode - closes the universe in minutes: every further
+    # delta key multiplies the inode_48 slot layouts)
+    out.append(U("g1-i16-i48-big", g1(range(1, 14)), g1([14, 15, 16, 17, 18, 19, 20]), probes=g1([0, 200]), variants=(),
                  tiers=("thorough",)))
-    out.append(U("g1-i48-i256-big", g1(range(1, 44)), g1([44, 45, 46, 47, 48, 49, 50, 51, 52]), probes=g1([0, 200]), variants=(),
+    out.append(U("g1-i48-i256-big", g1(range(1, 45)), g1([45, 46, 47, 48, 49, 50, 51]), probes=g1([0, 200]), variants=(),
                  tiers=("thorough",)))
     return out
 
